@@ -40,6 +40,11 @@ def _towards_zero_division(x: float | decimal.Decimal, y: float | decimal.Decima
 
     This ensures that integer division produces the same result as it would do in C#.
     """
+    if isinstance(x, int) and isinstance(y, int):
+        # Exact for arbitrarily large ints (Decimal division only keeps 28 significant digits).
+        quotient = abs(x) // abs(y)
+        return quotient if (x < 0) == (y < 0) else -quotient
+
     from decimal import ROUND_DOWN, Decimal
 
     return int((Decimal(x) / Decimal(y)).quantize(0, ROUND_DOWN))
